@@ -181,6 +181,11 @@ func (h *Handler) HandleMessage(msg stanza.Message, t xmlstream.TokenReadEncoder
 
 	for i.Next() {
 		start, _ := i.Current()
+		// Children that are not elements (eg. whitespace or other character data)
+		// have no start element.
+		if start == nil {
+			continue
+		}
 		switch start.Name.Local {
 		case "received":
 			_, id := attr.Get(start.Attr, "id")
